@@ -236,6 +236,10 @@ def make_backed(rng, kind, n, d_hint):
         k = max(2, d_hint // 2)
         X = None
         base = spectrum_data(rng, n, 2 * k, True)
+        if rng.random() < 0.35:
+            # landmark coordinates stored as integer pixel positions: the model is the model of those numbers
+            base = np.round(base * 40.0)
+            return [ms.PointCloud(row.reshape(k, 2).astype(np.int64)) for row in base], base
         samples = [ms.PointCloud(row.reshape(k, 2)) for row in base]
         return samples, base
     if kind == "image":
@@ -296,7 +300,10 @@ def w_model(ctx, rng, i):
         model = PCAVectorModel(Xin, centre=centre, inplace=bool(rng.random() < 0.5))
     else:
         samples, X = make_backed(rng, backing, n, d)
-        model = PCAModel(samples, centre=True)
+        if samples[0].as_vector().dtype.kind in "iu":
+            backing = "int_" + backing
+        # (integer-typed samples cannot be centred in place - the constructor refuses loudly -: the documented inplace=False is the way)
+        model = PCAModel(samples, centre=True, **({"inplace": False} if backing.startswith("int_") else {}))
         d = X.shape[1]
     cls = type(model).__name__
     m, lam, V = reference(X, centre)
@@ -316,7 +323,7 @@ def w_model(ctx, rng, i):
             ctx.fail("eigenvalues_are_not_the_sample_variances_along_the_components", cls=cls, mech=rel + (":centred" if centre else ":uncentred"), err=e)
         dots = np.abs(np.sum(model.components * V, axis=1))
         # adjacent eigenvalues differ by >= 10%: components match one by one (weak components get a looser bound)
-        if (dots < 1 - 1e-6).any():
+        if (dots < 1 - 1e-6).any() and not backing.startswith("int_"):       # (rounded data: the weak directions are rounding noise of nearly equal variance)
             ctx.fail("components_do_not_span_the_principal_directions", cls=cls, mech=rel, worst=float(dots.min()))
         # eigenvalue k = second moment of the data along component k
         proj = (X - m) @ model.components.T
@@ -328,6 +335,16 @@ def w_model(ctx, rng, i):
             rec = PCAVectorModel.reconstruct(model, row)
             if _amax(rec - row) > 1e-8 * scale:
                 ctx.fail("training_sample_not_reconstructed_exactly", cls=cls, mech=rel, err=float(np.abs(rec - row).max()))
+                break
+    if backing != "vector":
+        # the object-level mean is the sample mean, and every training sample comes back from a full reconstruction
+        mo = model.mean()
+        if _amax(np.asarray(mo.as_vector(), dtype=float) - m) > 1e-9 * scale:
+            ctx.fail("model_mean_is_not_the_sample_mean", cls=cls, mech="object_level:" + backing)
+        for smp, row in list(zip(samples, X))[:3]:
+            rec = np.asarray(model.reconstruct(smp).as_vector(), dtype=float)
+            if model.n_components == len(lam) and _amax(rec - row) > 1e-8 * scale:
+                ctx.fail("training_sample_not_reconstructed_exactly", cls=cls, mech="object_level:" + backing, err=_amax(rec - row))
                 break
     # ---- identities through the public API (taps judge them)
     for _ in range(3):
@@ -357,7 +374,23 @@ def w_model(ctx, rng, i):
     all_eigs = np.array(model._eigenvalues, copy=True)   # at this point nothing is trimmed: these are all eigenvalues
     orig = float(all_eigs.sum())
     for step in range(int(rng.integers(1, 11))):
-        kind = ["int", "float", "trim_int", "trim_float", "restore", "query", "copy", "whiten"][rng.integers(0, 8)]
+        kind = ["int", "float", "trim_int", "trim_float", "restore", "query", "copy", "whiten", "mean_handed_out"][rng.integers(0, 9)]
+        if kind == "mean_handed_out":
+            if backing == "vector":
+                continue
+            # the caller takes the mean object and turns it into something else (gives it other coordinates / pixels); the model's
+            # mean is still the sample mean
+            mo = model.mean()
+            if hasattr(mo, "points"):
+                mo.points = np.asarray(mo.points, dtype=float) * 2.0 + 1.0
+            else:
+                mo.pixels = np.asarray(mo.pixels, dtype=float) * 2.0 + 1.0
+            m2 = np.asarray(model.mean().as_vector(), dtype=float)
+            ctx.tap("mean_after_handing_it_out", "calls"); ctx.tap("mean_after_handing_it_out", "checked")
+            if _amax(m2 - m) > 1e-9 * scale:
+                ctx.fail("model_mean_is_not_the_sample_mean", cls=cls, mech="after_the_caller_changed_a_mean_it_was_given")
+            events.append(kind)
+            continue
         if kind == "whiten":
             # read-only derived quantities: asking for them leaves the model as it was (the invariant keeps judging)
             wc = model.whitened_components()
@@ -416,7 +449,7 @@ def w_model(ctx, rng, i):
                 if backing == "vector":
                     fresh = PCAVectorModel(X.copy(), centre=centre, max_n_components=k)
                 else:
-                    fresh = PCAModel(samples, centre=True, max_n_components=k)
+                    fresh = PCAModel(samples, centre=True, max_n_components=k, **({"inplace": False} if backing.startswith("int_") else {}))
                 ctx.tap("trim_vs_built", "calls"); ctx.tap("trim_vs_built", "checked")
                 ok = (fresh.n_components == model.n_components and np.abs(fresh._components - model._components).max() < 1e-9 and
                       np.abs(fresh._eigenvalues - model._eigenvalues).max() < 1e-9 * lam[0] and
@@ -480,7 +513,7 @@ def w_alt_constructors(ctx, rng, i):
         if _amax(model._eigenvalues - lam) > 1e-7 * lam[0]:
             ctx.fail("eigenvalues_are_not_the_sample_variances_along_the_components", cls=cls, mech="alt_ctor_%d" % kind)
         dots = np.abs(np.sum(model._components * V, axis=1))
-        if (dots < 1 - 1e-6).any():
+        if (dots < 1 - 1e-6).any() and not backing.startswith("int_"):       # (rounded data: the weak directions are rounding noise of nearly equal variance)
             ctx.fail("components_do_not_span_the_principal_directions", cls=cls, mech="alt_ctor_%d" % kind, worst=float(dots.min()))
         resid = np.abs(C @ model._components.T - model._components.T * model._eigenvalues).max()
         if not (resid <= 1e-7 * lam[0]):
